@@ -1,11 +1,12 @@
 SPECIFICATION Spec
 CONSTANTS
- Configs <- MCQuick
+ Configs <- MCFFErr
  DevUserLast = FALSE
  DevFirstWins = FALSE
  DevBibMerge = FALSE
  DevSplitAll = FALSE
  DevTmplMerge = FALSE
  DevSkipUserUnknown = TRUE
+ DevIdReuse = FALSE
 INVARIANT ErrorRule
 CHECK_DEADLOCK FALSE
